@@ -39,4 +39,5 @@ bool h_alloc_is_live(const void* p);
 
 int gen_op(int argc, char** w);
 int tree_op(int argc, char** w);
+cbor_item_t* parse_tree(const char* text);
 #endif
